@@ -95,13 +95,19 @@ if "C18" in which:
 CR = "Async.Conn Async.ConnWrites Async.ConnTotal Async.ConnReads"
 PRE = "Base.Bytes Gen.Generated Parser.ReqModel Parser.ReqTargets Parser.StreamModel Parser.AbsStream Parser.StreamSpec Parser.StreamRefine Parser.StreamInv "
 
+TAIL_C08 = '''(* non-vacuity of C08_peer_read_never_deadlocks: a GetValues query in the first segment, the second segment gated on its
+   reply (gm = 1): all hypotheses hold, the read returns the Stdin bytes; with the gate at 2 replies the read does deadlock *)
+Example C08_peer_example : forall fuel dest w', await_input 10 fuel dest ex_peer_r ex_peer_w <> Halt ODeadlock w'.
+Proof. exact ex_peer_no_deadlock. Qed.
+'''
+
 if "C08" in which:
     head = '''(* Props/C08.v — The server never waits for client input while it owes a reply.
    Only statements.  Model: Async/Conn.v (scripted world: gated client segments = a peer that withholds further
    records until it has seen the replies it waits for; PBlock = Pending without a wake-up).  Proofs: Async/ConnTotal.v
    (totality), Async/ConnReads.v (accounting at every suspension point).  R is the reply specification of
    Parser/StreamSpec.v: the replies owed for a byte string by a parser in a given state. *)
-From FV Require Import %s%s.
+From FV Require Import %s%s Async.PeerTargets Async.PeerProofs.
 ''' % (PRE, CR)
     put("C08", "", [
         ("the only way the task can be suspended without a pending wake-up is a transport read that a GATED client does not "
@@ -119,7 +125,22 @@ From FV Require Import %s%s.
         ("while skipping to a record boundary in close(): a deadlock happens only strictly inside a record the client has not "
          "finished; nothing was written, all replies are still accounted for (their flush is deferred to close, which is why the "
          "peer of the property — one that sends whole records — cannot deadlock here)", "boundary_loop_deadlock", "C08_record_boundary_deadlock"),
-    ], head=head)
+        ("---- the 'Hence' part, counted the way the waiting peer counts (complete EndRequest records; complete GetValuesResult / "
+         "UnknownType records in the bytes it received) ----  counting is additive over complete records", "counts_app", "C08_counts_additive", ["counts_app_stmt"]),
+        ("every reply the stream parser owes is a complete record (for continuations made of bytes; the unrestricted form is refuted "
+         "below: a 'byte' 300 would be echoed)", "replies_whole_partial", "C08_replies_are_whole_records", ["replies_whole_partial_stmt"]),
+        ("... refuted without that restriction", "replies_whole_full_is_false", "C08_replies_whole_unrestricted_refuted", ["replies_whole_stmt"]),
+        ("every output of a request-parser call is a sequence of complete records", "parse_out_whole", "C08_request_parser_output_whole", ["parse_out_whole_stmt"]),
+        ("a handler read that ends up waiting for the client has put into the log EXACTLY the replies the specification owes for the "
+         "bytes received during the read (pending output included), all complete records, counted additively — and the client's gate "
+         "is still not met", "read_block_counts", "C08_read_block_counts", ["read_block_counts_stmt"]),
+        ("MAIN (the peer of the property): if every gate of the client asks for no more than what is already in the log plus the "
+         "replies owed (by the specification) for the bytes of the segments before it, a handler read NEVER ends in the wait-for "
+         "cycle — whatever the transport's read/write readiness pattern", "peer_read_no_deadlock", "C08_peer_read_never_deadlocks",
+         ["peer_read_no_deadlock_stmt", "gates_owed_only"]),
+        ("between requests: the log has grown by exactly the (complete-record) outputs of the parse calls made, counted additively, when "
+         "parse_request waits for the client", "parse_request_block_counts", "C08_parse_request_block_counts", ["parse_request_block_counts_stmt"]),
+    ], head=head, tail=TAIL_C08)
 
 if "C09" in which:
     head = '''(* Props/C09.v — Async reads deliver exactly the active stream; output gated on the final stream.
